@@ -231,14 +231,24 @@ func (r *gaterRun) queryAll(ip, addr string, rot int) string {
 	var answers []string
 	for i := 0; i < nGates; i++ {
 		g := (i + rot) % nGates
-		ok, t0, t1, err := r.callGate(g, ip, addr)
-		if err != nil {
-			r.res.infra = fmt.Sprintf("hook rejected address %q: %v", addr, err)
+		var ok bool
+		var zone string
+		v := persists(func() (string, bool) {
+			var t0, t1 time.Time
+			var err error
+			ok, t0, t1, err = r.callGate(g, ip, addr)
+			if err != nil {
+				r.res.infra = fmt.Sprintf("hook rejected address %q: %v", addr, err)
+				return "", false
+			}
+			zone = r.m.get(ip).zone(t0, t1)
+			return r.m.gate(ip, g, ok, t0, t1)
+		})
+		if r.res.infra != "" {
 			return ""
 		}
-		zone := r.m.get(ip).zone(t0, t1)
 		answers = append(answers, fmt.Sprintf("%s=%v", gateName[g], ok))
-		if v := r.m.gate(ip, g, ok, t0, t1); v != "" {
+		if v != "" {
 			r.logf("query %s via %s zone=%s: %s", ip, addr, zone, strings.Join(answers, " "))
 			return v
 		}
@@ -251,6 +261,10 @@ func (r *gaterRun) queryAll(ip, addr string, rot int) string {
 }
 
 func (r *gaterRun) list() string {
+	return persists(r.listOnce)
+}
+
+func (r *gaterRun) listOnce() (string, bool) {
 	t0 := time.Now()
 	raw := r.g.ListBannedPeers()
 	t1 := time.Now()
@@ -265,15 +279,15 @@ func (r *gaterRun) list() string {
 	sort.Strings(names)
 	r.logf("listBannedPeers = %v", names)
 	for _, ip := range r.ips {
-		if v := r.m.listed(ip, got[ip], t0, t1); v != "" {
-			return v
+		if v, soft := r.m.listed(ip, got[ip], t0, t1); v != "" {
+			return v, soft
 		}
 		delete(got, ip)
 	}
 	for k := range got {
-		return fmt.Sprintf("listBannedPeers contains %s which was never penalised", k)
+		return fmt.Sprintf("listBannedPeers contains %s which was never penalised", k), false
 	}
-	return ""
+	return "", false
 }
 
 // await polls the gates until the model has seen the ban of ip end (or a violation).
@@ -282,18 +296,27 @@ func (r *gaterRun) await(ip, addr string) string {
 	if !s.banned || r.m.black[ip] { // a blacklisted IP stays refused: its ban cannot be seen ending through the gates
 		return ""
 	}
-	hard := s.upper.Add(2 * r.m.slack)
+	hard := s.upper.Add(10 * r.m.slack)
 	r.logf("await expiry of %s (must be banned until +%.3fs, at most until +%.3fs)", ip, s.mustEnd.Sub(r.start).Seconds(), s.upper.Sub(r.start).Seconds())
 	n := 0
 	for s.banned {
 		g := []int{gAddrDial, gAccept, gSecuredIn}[n%3]
 		n++
-		ok, t0, t1, err := r.callGate(g, ip, addr)
-		if err != nil {
-			r.res.infra = err.Error()
+		var ok bool
+		v := persists(func() (string, bool) {
+			var t0, t1 time.Time
+			var err error
+			ok, t0, t1, err = r.callGate(g, ip, addr)
+			if err != nil {
+				r.res.infra = err.Error()
+				return "", false
+			}
+			return r.m.gate(ip, g, ok, t0, t1)
+		})
+		if r.res.infra != "" {
 			return ""
 		}
-		if v := r.m.gate(ip, g, ok, t0, t1); v != "" {
+		if v != "" {
 			r.logf("poll #%d %s=%v", n, gateName[g], ok)
 			return v
 		}
